@@ -603,7 +603,9 @@ class ExtendedKalmanFilter:
             return False
 
         editing_threshold = self.config.innovation_filtering  # type: float
-        normalized_innovation = innovation.transpose() * S_inv * innovation
+        normalized_innovation = np.matmul(
+            innovation.transpose(), np.matmul(S_inv, innovation)
+        )[0, 0]
         (sensor_size, _) = innovation.shape
         expected_innovation = editing_threshold * sqrt(2 * sensor_size) + sensor_size
         return normalized_innovation > expected_innovation
